@@ -395,7 +395,7 @@ struct C10 : vr::Driver {
     return s.empty() ? "baseline" : s;
   }
   void workerInit() override { sim::processInit(); }
-  double scenarioTimeoutSec() override { return 30; }
+  double scenarioTimeoutSec() override { return 10; }
 
   void run(size_t idx, vr::Result& r, bool verbose) override {
     const Item& it = items[idx];
